@@ -1,6 +1,20 @@
 // Kani harnesses for src/internal/propset.rs (child module `vk`)
 use super::*;
 
+/// harness helper: take the Ok value of an io::Result without pulling the
+/// Debug/Drop machinery of io::Error into the model (unwrap() would)
+pub fn must<T>(r: std::io::Result<T>) -> T {
+    match r {
+        Ok(x) => x,
+        Err(e) => {
+            core::mem::forget(e);
+            assert!(false, "expected Ok");
+            kani::assume(false);
+            unreachable!()
+        }
+    }
+}
+
 pub fn stub_format(_args: core::fmt::Arguments<'_>) -> String {
     String::new()
 }
@@ -23,7 +37,7 @@ pub fn stub_encode_any7(_cp: &CodePage, _s: &str) -> Vec<u8> {
 fn any_timestamp() -> Timestamp {
     let b: [u8; 8] = kani::any();
     let mut r: &[u8] = &b;
-    Timestamp::read_from(&mut r).unwrap()
+    must(Timestamp::read_from(&mut r))
 }
 
 fn any_fixed_value() -> PropertyValue {
@@ -63,7 +77,7 @@ fn propval_fixed_size_and_roundtrip() {
         PropertyValue::LpStr(_) => 30,
     };
     assert!(tag == want);
-    let back = PropertyValue::read(&buf[..n], CodePage::Utf8).unwrap();
+    let back = must(PropertyValue::read(&buf[..n], CodePage::Utf8));
     assert!(back == v);
 }
 
